@@ -26,10 +26,10 @@ func VerifH08aFailedLoadsThenValid() {
 	Quiet = true
 
 	faults := []string{"parse", "setup", "startup", "listen", "listenpacket"}
-	nfail := verifrt.IntRange("failed-attempts", 0, 2)
+	nfail := verifrt.IntRange("failed-attempts", 0, 2+verifrt.Tier())
 	for i := 0; i < nfail; i++ {
 		f := faults[verifrt.Choose("fault", len(faults))]
-		_, err := Start(zzInput([]string{"X", "Y"}[i], f))
+		_, err := Start(zzInput([]string{"X", "Y", "Z"}[i], f))
 		verifrt.Assert(err != nil, "invalid-configuration-is-rejected")
 		verifrt.Assert(len(Instances()) == 0, "failed-load-leaves-no-instance")
 		verifrt.Assert(len(zzOpenLn) == 0, "failed-load-leaves-no-listener")
